@@ -69,6 +69,22 @@ int main(int argc, char **argv)
         if (bad) REPRODUCED("%d of the 11 entry-point slots do not hold the thread-safe wrapper after turnOnThreadSafeNewDeleteOverloads", bad);
         NOT_REPRODUCED("all 11 slots hold the thread-safe wrappers");
     }
+    if (!strcmp(w, "saverestore")) {
+        MemoryLeakWarningPlugin::turnOnThreadSafeNewDeleteOverloads();
+        MemoryLeakWarningPlugin::saveAndDisableNewDeleteOverloads();
+        MemoryLeakWarningPlugin::saveAndDisableNewDeleteOverloads();
+        MemoryLeakWarningPlugin::restoreNewDeleteOverloads();
+        MemoryLeakWarningPlugin::restoreNewDeleteOverloads();
+        int bad = 0;
+        bad += operator_new_fptr != threadsafe_mem_leak_operator_new; bad += operator_new_nothrow_fptr != threadsafe_mem_leak_operator_new_nothrow;
+        bad += operator_new_debug_fptr != threadsafe_mem_leak_operator_new_debug; bad += operator_new_array_fptr != threadsafe_mem_leak_operator_new_array;
+        bad += operator_new_array_nothrow_fptr != threadsafe_mem_leak_operator_new_array_nothrow; bad += operator_new_array_debug_fptr != threadsafe_mem_leak_operator_new_array_debug;
+        bad += operator_delete_fptr != threadsafe_mem_leak_operator_delete; bad += operator_delete_array_fptr != threadsafe_mem_leak_operator_delete_array;
+        bad += malloc_fptr != threadsafe_mem_leak_malloc; bad += realloc_fptr != threadsafe_mem_leak_realloc; bad += free_fptr != threadsafe_mem_leak_free;
+        MemoryLeakWarningPlugin::turnOffNewDeleteOverloads();
+        if (bad) REPRODUCED("%d of the 11 slots do not hold the thread-safe wrapper again after a nested save / restore", bad);
+        NOT_REPRODUCED("all 11 slots restored");
+    }
     void *p = 0;
     if (!strcmp(w, "malloc")) { p = threadsafe_mem_leak_malloc(size, "f.c", 1); }
     else if (!strcmp(w, "free")) { p = mem_leak_malloc(size, "f.c", 1); uses = unheld_use = 0; threadsafe_mem_leak_free(p, "f.c", 2); }
